@@ -166,6 +166,18 @@ class Opaque:
         return 'Opaque(%s)' % (s.tag,)
 
 
+class Poison:
+    """result of an rvalue the interpreter cannot evaluate (e.g. pointer-to-integer arithmetic of rustc's inserted alignment checks);
+    harmless unless it is USED: any read of it raises Unsupported with the original reason"""
+    __slots__ = ('reason',)
+
+    def __init__(s, reason):
+        s.reason = reason
+
+    def __repr__(s):
+        return 'Poison(%s)' % (s.reason,)
+
+
 class FnV:
     __slots__ = ('name',)
 
